@@ -1,14 +1,21 @@
 #!/usr/bin/env python3
 """tools/register.py Cxx… — validate a property's check on /repo (seed 1, quick) with its findings merged; on exit 0 mark
 the entry ready, rebuild known_findings.json and MANIFEST.json; otherwise leave it unregistered and print why."""
-import json, os, subprocess, sys, time
+import json, os
+
+def atomic_dump(obj, path):
+    tmp = path + ".tmp%d" % os.getpid()
+    with open(tmp, "w") as f:
+        json.dump(obj, f, indent=1)
+    os.replace(tmp, path)
+, subprocess, sys, time
 ROOT = os.path.dirname(os.path.dirname(os.path.abspath(__file__)))
 for pid in sys.argv[1:]:
     e = os.path.join(ROOT, "props", pid, "entry.json")
     j = json.load(open(e))
     was = j.get("ready", False)
     j["ready"] = True
-    json.dump(j, open(e, "w"), indent=1)
+    atomic_dump(j, e)
     subprocess.run([os.path.join(ROOT, "tools", "merge_findings.py")], capture_output=True)
     t = time.time()
     p = subprocess.run(["./check", pid], cwd=ROOT, capture_output=True, text=True)
@@ -20,6 +27,6 @@ for pid in sys.argv[1:]:
         print("    ", l[:220])
     if not ok:
         j["ready"] = was
-        json.dump(j, open(e, "w"), indent=1)
+        atomic_dump(j, e)
         subprocess.run([os.path.join(ROOT, "tools", "merge_findings.py")], capture_output=True)
 subprocess.run([os.path.join(ROOT, "mkmanifest")])
